@@ -98,6 +98,40 @@ theorem C20_count_announced (ext : Ext) (cfg : Settings) (w : Writer) (bm : Bool
     simpa [rowsOf_length] using this
   rw [hj, ha, he]; simp [hl]
 
+/-- **Unix batch frame = JSON batch frame.** For every row list the batch frame of the
+line-oriented renderer decodes to the same cell list as the JSON renderer's batch frame. -/
+theorem C20_unix_batch_eq_json_batch (ext : Ext) (rows : List Row) :
+    unixBatchFrame ext rows = jsonBatchFrame ext rows := rfl
+
+/-- **The JSON-family encodings agree.** JSON batch frame, JSON row frames, Unix batch frame,
+Unix row frames and the three buffered table renderings decode every row list to the same
+cell lists (all cells, including re-parsed strings and non-finite floats). -/
+theorem C20_json_family_agree (ext : Ext) (schema : Schema) (rows : List Row) (count : Nat) :
+    unixBatchFrame ext rows = jsonBatchFrame ext rows
+    ∧ rows.map (jsonRowFrame ext) = jsonBatchFrame ext rows
+    ∧ rows.map (unixRowFrame ext) = jsonBatchFrame ext rows
+    ∧ (renderTableJson ext schema rows count).rows = jsonBatchFrame ext rows
+    ∧ (renderTableUnix ext schema rows count).rows = jsonBatchFrame ext rows
+    ∧ (renderTableArrow ext schema rows count).rows = jsonBatchFrame ext rows
+    ∧ (renderTableJson ext schema rows count).cols = (renderTableUnix ext schema rows count).cols
+    ∧ (renderTableJson ext schema rows count).cols = (renderTableArrow ext schema rows count).cols :=
+  ⟨rfl, rfl, rfl, rfl, rfl, rfl, rfl, rfl⟩
+
+/-- **Text frames = JSON frames.** The stream the writer produces with the line-oriented
+renderer decodes to exactly the stream it produces with the JSON renderer (schema, every
+frame, announced count), for both writers, both frame modes, every batching and
+LIMIT/OFFSET. All theorems below about `writeJson` therefore hold for the text frames. -/
+theorem C20_text_frames_eq_json_frames (ext : Ext) (cfg : Settings) (w : Writer) (bm : Bool)
+    (schema : Schema) (batches : List Batch) :
+    writeUnix ext cfg w bm schema batches = writeJson ext cfg w bm schema batches := rfl
+
+/-- The directly rendered frames of the emitted rows are the rows of the writer's stream. -/
+theorem C20_emitted_rows_are_stream_rows (ext : Ext) (cfg : Settings) (w : Writer) (bm : Bool)
+    (schema : Schema) (batches : List Batch) :
+    jsonBatchFrame ext (emittedRows cfg w schema batches)
+      = (writeJson ext cfg w bm schema batches).rows := by
+  simp only [writeJson, JStream.rows, jsonFrames_rows, jsonBatchFrame, emittedRows, rowsOf]
+
 /-- **Rows refine the specification.** For the query writer (QUERY, REPLAY, COMPARE) the rows
 carried by the JSON/text frames are: first occurrence per event id, then OFFSET, then LIMIT of
 the concatenated input — for every way of cutting the input into batches, in both frame
